@@ -273,7 +273,8 @@ TABLE = {
     'traceback.format_exc': lambda e, a, k, n: 'traceback',
     'collections.namedtuple': col_namedtuple,
     'numpy.ceil': np_ceil, 'numpy.floor': np_floor, 'math.ceil': math_ceil, 'math.floor': math_floor,
-    'itertools.chain': it_chain, 'itertools.product': it_product, 'itertools.combinations': it_combinations,
+    'itertools.chain': it_chain, 'itertools.chain.from_iterable': lambda e, a, k, n: it_chain(e, list(e.iterate_concrete(a[0])), {}, n),
+    'itertools.product': it_product, 'itertools.combinations': it_combinations,
     'more_itertools.windowed': mi_windowed,
     'collections.defaultdict': col_defaultdict, 'collections.Counter': col_counter,
 }
